@@ -208,6 +208,34 @@ def run(tier):
                 continue
             if od:
                 failures.append(dict(kind='program', summary=f'{comb} of {k} inputs with a {kind} stage at input {pos} (and stages on top) reports ordered=True', config=dict(comb=comb, k=k, pos=pos, kind=kind)))
+        # (2') the same seeded per-epoch stage at SEVERAL positions of one pipeline (tile, self-concatenation): every position draws its
+        #      own order in every epoch; behind consumers that freeze per epoch (multi-worker prefetch, catch, lazy apply) the
+        #      orders of the plain pipeline are reproduced, and a frozen copy shows the epoch it was taken in
+        for _ in range(200 if big else 40):
+            n, reps, seed = r.randint(2, 6), r.randint(2, 3), r.randint(0, 10 ** 6)
+            shape = r.choice(['tile', 'selfconcat'])
+
+            def mk(wrap):
+                rs = ld.new(list(range(n))).shuffle(True, rng=np.random.RandomState(seed))
+                d = rs.tile(reps) if shape == 'tile' else rs.concatenate(*([rs] * (reps - 1)))
+                return wrap(d)
+            try:
+                ref = [[int(x) for x in mk(lambda d: d)] for _e in [0]]
+                plain = mk(lambda d: d)
+                ref = [[int(x) for x in plain] for _e in range(3)]
+                for how, wrap in (('prefetch(2, 4)', lambda d: d.prefetch(2, 4)), ('catch()', lambda d: d.catch()),
+                                  ('lazy apply', lambda d: d.apply(lambda x: x, lazy=True)), ('map.prefetch(3, 3)', lambda d: d.map(int).prefetch(3, 3))):
+                    w = mk(wrap)
+                    got = [[int(x) for x in w] for _e in range(3)]
+                    if got != ref:
+                        failures.append(dict(kind='program', summary=f'seeded reshuffle of range({n}) (seed {seed}) used {reps} times in one pipeline ({shape}) behind {how}: epochs {got}, the plain pipeline gives {ref}',
+                                             config=dict(n=n, reps=reps, seed=seed, shape=shape, how=how)))
+                        break
+                fz = mk(lambda d: d).copy(freeze=True)
+                if [int(x) for x in fz] != ref[0] or [int(x) for x in fz] != ref[0]:
+                    failures.append(dict(kind='program', summary=f'copy(freeze=True) of a {shape} of a seeded reshuffle (n={n}, reps={reps}, seed {seed}) is not the first epoch {ref[0]}', config=dict(n=n, reps=reps, seed=seed, shape=shape)))
+            except Exception as e:
+                failures.append(dict(kind='program', summary=f'{shape} of a seeded reshuffle raised {type(e).__name__}: {e}'[:300], config=dict(n=n, reps=reps, seed=seed, shape=shape)))
         # (5) copy() preserves every configuration parameter of every stage
         for msg in copy_params(ld):
             failures.append(dict(kind='program', summary=msg, config={}))
